@@ -111,6 +111,21 @@ DeclTablesOK(ss, cs, m, combos, indexer, segs, nseg) ==
 
 (* The mask of a model: filters evaluated over the product of the sparse variables in
    canonical order (create_filter_mask). *)
+(* ------------------------------------------------------------ forward mask (experimental in lcm) *)
+(***************************************************************************)
+(* create_forward_mask: which combinations of next-period state values are *)
+(* reachable from a set of current state-choice rows.  sizes: grid sizes   *)
+(* of the states (in grid order); rows: the current rows (name -> index);  *)
+(* nxt[k]: <<>> if state k has no usable transition function (then every   *)
+(* value of k is admitted), otherwise [args, tab] with the next index      *)
+(* given by the table at the row's argument indices.                       *)
+(***************************************************************************)
+ForwardMask(sizes, rows, nxt) ==
+  LET cells == Prod(sizes)
+      reach(row, k) == Dig(nxt[k].tab, [i \in DOMAIN nxt[k].args |-> row[nxt[k].args[i]]])[1]
+  IN [c \in DOMAIN cells |->
+        \E r \in DOMAIN rows : \A k \in DOMAIN sizes : nxt[k].args = <<"-">> \/ cells[c][k] = reach(rows[r], k)]
+
 MaskOf(M, t) ==
   LET cells == ProdOf(CanonSparse(M))
   IN [k \in DOMAIN cells |-> PassFiltersIdx(M, t, cells[k])]
